@@ -53,6 +53,52 @@ def zlib_wrap(deflated, data, cmf=0x78, flevel=2):
     return bytes([cmf, flg]) + deflated + struct.pack(">I", zlib.adler32(data) & 0xFFFFFFFF)
 
 
+def blocks_desc(raw):
+    """the description of a raw DEFLATE stream as the driver's BLOCKS op reads it (tools/deflate_blocks.py recovers the
+    blocks: kinds, table headers, code-length symbols, literal / match symbols with their extra bits)"""
+    import os
+    import sys
+    sys.path.insert(0, os.path.join(os.path.dirname(os.path.dirname(os.path.abspath(__file__))), "tools"))
+    from deflate_blocks import parse
+
+    def toks(ts):
+        return ";".join("l%d" % t[1] if t[0] == "lit" else "m%d.%d.%d.%d" % t[1:] for t in ts) or "."
+    out = []
+    for b in parse(raw):
+        if b[0] == "stored":
+            out.append("S:" + (b[1].hex() or "."))
+        elif b[0] == "fixed":
+            out.append("F:" + toks(b[1]))
+        else:
+            hlit, hdist, hclen, clv, cls, lens = b[1]
+            c = ";".join({"len": "n", "rep": "r", "z3": "z", "z11": "Z"}[k] + str(v) for k, v in cls)
+            out.append("D:%d,%d,%d:%s:%s:%s:%s" % (hlit, hdist, hclen, ";".join(map(str, clv)), c, ";".join(map(str, lens)), toks(b[2])))
+    return "/".join(out)
+
+
+def zlib_lookalike(rng):
+    """a bare RFC 1951 stream whose first two bytes pass the zlib header test (CM = 8, multiple of 31): a stored block
+    with non-zero padding bits in its header byte and a LEN whose low byte completes the check.  coding.rs (after
+    repair F6) takes it for zlib and refuses it; what matters is that nothing else happens (no fallback that returns
+    other bytes).  returns (stream, the payload a bare-deflate reading would give)"""
+    first = rng.pick([0x08, 0x18, 0x28, 0x38, 0x48, 0x58, 0x68, 0x78])          # BFINAL = 0, BTYPE = 00, padding bits = CINFO
+    lo = [b for b in range(256) if (first * 256 + b) % 31 == 0 and not b & 0x20]
+    l0 = rng.pick(lo)
+    d2 = rand_body(rng)
+    if rng.chance(1, 2):
+        # ... and whose continuation, read as zlib, is itself a stored block (LEN high byte 0 = a block header, the first
+        # payload bytes complete that block's NLEN): the zlib reading produces output before it runs out of input
+        ln = l0
+        d1 = (bytes([l0, 0]) + gen.rand_bytes(rng, max(0, l0 - 2)))[:l0]
+        d2 = d2 + b"xy"
+        tail = stored_deflate(d2, max(1, len(d2) // 2)) if l0 == 1 else rng.pick([lambda x: stored_deflate(x, 65535), lambda x: raw_deflate(x, rng.below(10))])(d2)
+    else:
+        ln = l0 + 256 * rng.pick([0, 0, 0, 1, 2])
+        d1 = gen.rand_bytes(rng, ln)
+        tail = rng.pick([lambda x: stored_deflate(x, 65535), lambda x: raw_deflate(x, rng.below(10))])(d2)
+    return bytes([first]) + struct.pack("<HH", ln, ln ^ 0xFFFF) + d1 + tail, d1 + d2
+
+
 def rand_body(rng):
     k = rng.below(12)
     if k == 0:
@@ -271,6 +317,7 @@ def decode_postconditions(group, i, hs, body, out):
 class C13:
     pid = "C13"
     profiles = ["dev"]
+    uses_model = True
 
     @staticmethod
     def projection(res):
@@ -313,11 +360,74 @@ class C13:
                     g.add("decode", "DECODE %d %s %s" % (tree, hdrs_field([(b"Content-Encoding", TOKEN_OF[kind])]), hx(enc)))
                     groups.append(g)
                     k += 1
+        # the decoder's 32 KiB window: highly repetitive bodies whose length is just around a multiple of 32768, every
+        # container, levels 1..9 (the inflater hands its output over in window-sized pieces; a short piece is not the end)
+        sizes = [32767, 32768, 32769, 32800, 33027, 65535, 65536, 65537, 98304, 98305, 98400] if tier == "quick" else \
+                [32768 * m + d for m in (1, 2, 3, 4, 5) for d in (-1, 0, 1, 2, 32, 258, 259)]
+        for j, size in enumerate(sizes):
+            unit = rng.pick([b"a", b"ab", b"\x00", b"abc"])
+            data = (unit * (size // len(unit) + 1))[:size]
+            for kind in ("raw", "zlib", "gzip"):
+                level = rng.randint(1, 9)
+                d = raw_deflate(data, level)
+                enc = d if kind == "raw" else (zlib_wrap(d, data) if kind == "zlib" else gzip_wrap(d, data)[0])
+                hsw = [(b"Content-Encoding", TOKEN_OF[kind])]
+                g = Group("w%d%s" % (j, kind), "window-wrap", {"headers": [[a.hex(), b.hex()] for a, b in hsw], "data": None, "data_len": len(data), "data_crc": zlib.crc32(data),
+                                                              "layers": ["%s level %d, %d x %r" % (kind, level, size, unit)]})
+                g.add("decode", "DECODE %d %s %s" % (tree, hdrs_field(hsw), hx(enc)))
+                groups.append(g)
+        # the encoder specification of the C13 theorems, measured on real streams: the block description recovered from
+        # zlib's output (every level, strategy, flush pattern; hand-rolled stored streams too) must satisfy Block.Ok,
+        # re-encode to zlib's bytes bit for bit, and expand to the data -- asked of the model's compiled definitions;
+        # the same stream is inflated by the implementation and by the model
+        for j in range(n_for(tier, 300, 6000)):
+            data = rand_body(rng) if rng.chance(9, 10) else gen.rand_bytes(rng, rng.randint(3000, 9000), b"abcdefghijklmnop \n")
+            raw, info = encode_layer(rng, "raw", data)
+            g = Group("es%d" % j, "encoder-spec", {"headers": [[b"Content-Encoding".hex(), b"deflate".hex()]], "data": data.hex() if len(data) < 3000 else None, "data_len": len(data),
+                                                   "data_crc": zlib.crc32(data), "raw": raw.hex() if len(raw) < 3000 else None, "raw_crc": zlib.crc32(raw), "raw_len": len(raw), "layers": [str(info)]})
+            g.add("inflate", "FL %s" % hx(raw))
+            g.add("blocks", "BLOCKS %s" % blocks_desc(raw), {"modelonly": True})
+            groups.append(g)
+        # bare streams that look like zlib (coding.rs sniffs the first two bytes): refused, and nothing else
+        for j in range(n_for(tier, 60, 1500)):
+            enc, payload = zlib_lookalike(rng)
+            hsl = [(b"Content-Encoding", b"deflate")]
+            g = Group("la%d" % j, "zlib-lookalike", {"headers": [[a.hex(), b.hex()] for a, b in hsl], "data": None, "data_len": len(payload), "data_crc": zlib.crc32(payload), "layers": ["bare deflate starting %s" % enc[:2].hex()]})
+            g.add("decode", "DECODE %d %s %s" % (tree, hdrs_field(hsl), hx(enc)))
+            groups.append(g)
         return groups
 
     @staticmethod
-    def oracle(group, res):
+    def oracle(group, res, model=None):
         fails = []
+        if group.kind == "zlib-lookalike":
+            # refusal is what repair F6 made the code do (correspondence says so); if it ever answers, the only right
+            # answer is the payload of the bare-deflate reading
+            out = strip_ann(res[group.tag(0)])
+            if out == "OK" or out.startswith("OK "):
+                got = unhex(out.split(" | h=", 1)[0][3:] or ".")
+                if len(got) != group.meta["data_len"] or zlib.crc32(got) != group.meta["data_crc"]:
+                    fails.append(Failure(group, "inverse", "a bare deflate stream that looks like zlib is answered with bytes that are not its content (%d bytes instead of %d)" % (len(got), group.meta["data_len"]), [0]))
+            return fails
+        if group.kind == "encoder-spec":
+            out = strip_ann(res[group.tag(0)])
+            got = unhex(out[3:] or ".") if (out == "OK" or out.startswith("OK ")) else None
+            if got is None or len(got) != group.meta["data_len"] or zlib.crc32(got) != group.meta["data_crc"]:
+                fails.append(Failure(group, "inverse", "a bare deflate stream written by zlib (%s) is not inflated to the data: %s" % (group.meta["layers"][0][:120], out[:30]), [0]))
+            mo = (model or {}).get(group.tag(1), "")
+            f = dict(x.split("=", 1) for x in mo.split(" ") if "=" in x)
+            bits, exp = f.get("bits", "?"), f.get("out", "?")
+            bits = "" if bits == "." else bits
+            exp = "" if exp == "." else exp
+            try:
+                ok = f.get("ok") == "1" and len(bits) == 2 * group.meta["raw_len"] and zlib.crc32(bytes.fromhex(bits)) == group.meta["raw_crc"] and \
+                    len(exp) == 2 * group.meta["data_len"] and zlib.crc32(bytes.fromhex(exp)) == group.meta["data_crc"]
+            except ValueError:
+                ok = False
+            if not ok:
+                fails.append(Failure(group, "encoder-spec", "the block description of a zlib stream (%s) is outside the theorem's hypothesis class: Block.Ok=%s, re-encoding %s, expansion %s" % (
+                    group.meta["layers"][0][:100], f.get("ok"), "equal" if bits == (group.meta.get("raw") or bits) else "differs", "equal" if exp == (group.meta.get("data") or exp) else "differs"), [1]))
+            return fails
         out = strip_ann(res[group.tag(0)])
         if not out.startswith("OK "):
             fails.append(Failure(group, "inverse", "a correctly coded body (%s) is not decoded: %s" % ("; ".join(group.meta["layers"])[:200], out[:30]), [0]))
@@ -351,6 +461,21 @@ class C14:
             g = Group("h%d" % k, "decode-headers", {"headers": [[a.hex(), b.hex()] for a, b in hs], "body": body.hex() if len(body) < 4000 else None,
                                                      "expected_out": eo.hex() if (eo is not None and len(eo) < 4000) else None, "corrupt": info["corrupt"]})
             g.add("decode", "DECODE %d %s %s" % (tree, hdrs_field(hs), hx(body)))
+            groups.append(g)
+        # bare deflate streams that pass the zlib header test, alone and under / over another coding: whatever
+        # decode_body answers, it is the answer of the model (refusal with the headers untouched, after repair F6) --
+        # in particular no second attempt with another decoder that returns bytes of both attempts
+        for k in range(n_for(tier, 120, 3000)):
+            enc, payload = zlib_lookalike(rng)
+            toks = [b"deflate"]
+            if rng.chance(1, 3):
+                enc = gzip_wrap(raw_deflate(enc, rng.below(10)), enc)[0]
+                toks.append(b"gzip")
+            hs = [(rng.pick([b"Content-Encoding", b"content-encoding"]), b", ".join(toks))]
+            if rng.chance(1, 2):
+                hs.insert(0, (b"Content-Length", str(len(enc)).encode()))
+            g = Group("la%d" % k, "zlib-lookalike", {"headers": [[a.hex(), b.hex()] for a, b in hs], "body": enc.hex() if len(enc) < 4000 else None, "expected_out": payload.hex() if len(payload) < 4000 else None, "corrupt": False})
+            g.add("decode", "DECODE %d %s %s" % (tree, hdrs_field(hs), hx(enc)))
             groups.append(g)
         return groups
 
